@@ -449,6 +449,10 @@ var vpCalls = []vpCall{
 			if e := p.EnrichSession(context.Background(), s); e != nil {
 				return false, e
 			}
+			// ... the callback then has the provider validate the session it is about to save
+			if !p.ValidateSession(context.Background(), s) {
+				return false, nil
+			}
 			// ... and the callback saves the session only if the provider authorises it
 			if ok, aerr := p.Authorize(context.Background(), s); aerr != nil || !ok {
 				return false, aerr
@@ -601,7 +605,7 @@ func driveProviders(t *testing.T, out *vEmitter) {
 				for k := range muts {
 					m, lbl := muts[k], labels[k]
 					dst := &jobs
-					if vpCorpus[pv.name+"/"+c.name+"/"+d+lbl] || ((c.name == "Redeem" || c.name == "RefreshSession") && m.code != 0) || (c.name == "Redeem" && d == "bothtokens") {
+					if vpCorpus[pv.name+"/"+c.name+"/"+d+lbl] || ((c.name == "Redeem" || c.name == "RefreshSession") && m.code != 0) || (c.name == "Redeem" && d == "bothtokens") || (c.name == "Redeem" && d == "token" && strings.HasPrefix(lbl, "/access_token=")) {
 						dst = &first // minimised earlier failures, and every error status at every endpoint a login reads, run on every run
 					}
 					*dst = append(*dst, func() {
@@ -630,6 +634,14 @@ func driveProviders(t *testing.T, out *vEmitter) {
 						if d == "token" && sess && (m.code != 0 || (m.raw != nil && vpNotJSON[*m.raw])) {
 							out.Violation("providers/"+pv.name+"/"+c.name+"/session-from-failed-token-response", "a session came out of a failed token response",
 								map[string]interface{}{"provider": pv.name, "call": c.name, "position": lbl})
+						}
+						// a token response WITHOUT an access token (absent, null, empty) gives no session: there is nothing the
+						// provider's validation could have checked
+						if d == "token" && sess && c.name == "Redeem" && len(m.at) == 1 && m.raw == nil && m.code == 0 {
+							if k, ok := m.at[0].(string); ok && k == "access_token" && (lbl == "/access_token=removed" || lbl == "/access_token=null" || lbl == "/access_token=empty-string") {
+								out.Violation("providers/"+pv.name+"/Redeem/session-without-access-token", "a login completed although the token response carried no access token",
+									map[string]interface{}{"provider": pv.name, "position": lbl})
+							}
 						}
 						// providers that verify tokens: issuer, audience or expiry wrong in BOTH tokens leaves nothing verified to build on
 						if d == "bothtokens" && sess && vpVerifying[pv.name] && len(m.at) == 1 && m.raw == nil && m.code == 0 {
